@@ -27,6 +27,9 @@ class _Injected(MemoryError):
     pass
 
 
+CONTESTED = 'G-x'
+
+
 def store_files():
     import fim.graph.networkx_property_graph as a
     import fim.graph.networkx_property_graph_disjoint as b
@@ -233,6 +236,7 @@ class W1TWorld(World):
             'p_switch': rng.choice([0.02, 0.05, 0.15, 0.4]),
             'pct_depth': rng.randint(1, 3),
             'inject': rng.random() < 0.3,
+            'contest': rng.random() < 0.3,
             'step_cap': 10,
         }
 
@@ -280,6 +284,22 @@ class W1TWorld(World):
             has_nodes = []      # node ids currently expected in own graph
             for _ in range(cfg['ops_per_thread']):
                 k = rng.random()
+                if cfg.get('contest') and rng.random() < 0.55:
+                    # a graph id all threads import into, add nodes to and delete (judged against the serial orders)
+                    ctr += 1
+                    if k < 0.45:
+                        ids = ['t%d-x%d-%d' % (t, ctr, i) for i in range(rng.randint(1, 3))]
+                        ops.append({'op': 'add_graph', 'g': CONTESTED, 'ids': ids,
+                                    'edges': [[0, 1]] if len(ids) > 1 and rng.random() < 0.5 else [],
+                                    'via': rng.choice(['storage', 'storage', 'importer'])})
+                    elif k < 0.85:
+                        ops.append({'op': 'add_node', 'g': CONTESTED, 'n': 't%d-xn%d' % (t, ctr), 'props': False})
+                    elif k < 0.93:
+                        ops.append({'op': 'del_graph', 'g': CONTESTED})
+                    else:
+                        ids = ['t%d-xd%d-%d' % (t, ctr, i) for i in range(rng.randint(1, 2))]
+                        ops.append({'op': 'add_graph_direct', 'g': CONTESTED, 'ids': ids, 'edges': []})
+                    continue
                 if k < 0.3 and not has_nodes:
                     n = rng.randint(1, 4)
                     ids = []
@@ -558,7 +578,7 @@ class W1TWorld(World):
             for i, op in enumerate(ops):
                 g = op['g']
                 done = i < len(results[tid]) and results[tid][i] == 'ok'
-                if not done:
+                if not done or g == CONTESTED:
                     continue
                 if op['op'] in ('add_graph', 'add_graph_direct'):
                     exp_nodes[g] = set(op['ids'])
@@ -581,7 +601,7 @@ class W1TWorld(World):
         exp_props = {}
         for tid, ops in enumerate(plan['threads']):
             for i, op in enumerate(ops):
-                if not (i < len(results[tid]) and results[tid][i] == 'ok'):
+                if not (i < len(results[tid]) and results[tid][i] == 'ok') or op['g'] == CONTESTED:
                     continue
                 if op['op'] in ('add_graph', 'add_graph_direct'):
                     for k2 in [k2 for k2 in exp_props if k2[0] == op['g']]:
@@ -636,8 +656,11 @@ class W1TWorld(World):
         # injected fault is not what the property speaks of (it demands the lock discipline there), so content is
         # judged on the shared store only in fault-free runs, and per graph on the disjoint store.
         content_judged = not (store == 'shared' and sched.fired)
+        if any(op['g'] == CONTESTED for ops in plan['threads'] for op in ops):
+            self.check_contested(plan, results, store, got_nodes.get(CONTESTED, []), got_edges.get(CONTESTED, set()),
+                                 sigx, sched)
         for g in sorted(set(exp_nodes) | set(got_nodes)):
-            if g in uncertain_graphs or not content_judged:
+            if g in uncertain_graphs or not content_judged or g == CONTESTED:
                 continue
             opt = optional_nodes.get(g, set())
             want = sorted(exp_nodes.get(g, set()) - opt)
@@ -661,6 +684,74 @@ class W1TWorld(World):
                           'graph %s: expected edges %s, found %s' %
                           (g, sorted(sorted(e) for e in exp_edges.get(g, set())),
                            sorted(sorted(e) for e in got_edges.get(g, set()))))
+
+    def check_contested(self, plan, results, store, got_nodes, got_edges, sigx, sched):
+        """The graph id every thread writes to: its final content must be the outcome of SOME serial order of the
+        completed operations that respects each thread's own order (sequential consistency; real-time order would
+        only restrict further, so this never blames a correct store). Reference semantics per store flavour:
+        add_graph replaces (shared) / is skipped when the id holds nodes (one-graph-per-store, its documented
+        behaviour), add_graph_direct replaces, add_node adds, del_graph empties."""
+        if sched.fired:
+            self.stats.inc('probe.contested.not_judged_after_injection')
+            return
+        seqs = []
+        for tid, ops in enumerate(plan['threads']):
+            seq = []
+            for i, op in enumerate(ops):
+                if op['g'] != CONTESTED or op['op'] == 'extract':
+                    continue
+                if not (i < len(results[tid]) and results[tid][i] == 'ok'):
+                    return      # already reported as op_failed / aborted
+                seq.append(op)
+            seqs.append(seq)
+
+        def apply(state, op):
+            nodes, edges = state
+            k = op['op']
+            if k in ('add_graph', 'add_graph_direct'):
+                if k == 'add_graph' and store == 'disjoint' and nodes:
+                    return state
+                return (frozenset(op['ids']),
+                        frozenset(frozenset({op['ids'][a], op['ids'][b]}) for a, b in op['edges']))
+            if k == 'add_node':
+                return (nodes | {op['n']}, edges)
+            if k == 'del_graph':
+                return (frozenset(), frozenset())
+            return state
+        finals = set()
+        seen = set()
+        stack = [(tuple(0 for _ in seqs), (frozenset(), frozenset()))]
+        while stack:
+            pos, state = stack.pop()
+            if (pos, state) in seen:
+                continue
+            seen.add((pos, state))
+            if all(pos[t] == len(seqs[t]) for t in range(len(seqs))):
+                finals.add(state)
+                continue
+            for t in range(len(seqs)):
+                if pos[t] < len(seqs[t]):
+                    p2 = list(pos)
+                    p2[t] += 1
+                    stack.append((tuple(p2), apply(state, seqs[t][pos[t]])))
+        self.stats.inc('probe.contested.judged')
+        self.stats.inc('probe.contested.serial_outcomes', len(finals))
+        dup = sorted(x for x in set(got_nodes) if got_nodes.count(x) > 1)
+        got = (frozenset(got_nodes), frozenset(got_edges))
+        if dup or got not in finals:
+            union = set()
+            for n, _ in finals:
+                union |= n
+            lost = sorted(set.intersection(*[set(n) for n, _ in finals]) - set(got_nodes)) if finals else []
+            self.flag('no_node_lost' if lost else 'graph_has_exactly_added',
+                      dict(sigx, symptom='contested_not_serializable', dup=bool(dup)),
+                      'graph %s written by all threads holds nodes %s / edges %s, which no serial order of the completed '
+                      'operations produces (%d possible outcomes, e.g. %s); in every serial order it holds %s; '
+                      'operations per thread %s; schedule %s' %
+                      (CONTESTED, sorted(got_nodes), sorted(sorted(e) for e in got_edges), len(finals),
+                       [sorted(n) for n, _ in sorted(finals, key=lambda f: sorted(f[0]))[:3]], lost,
+                       canon([[{'op': o['op'], 'ids': o.get('ids'), 'n': o.get('n')} for o in q] for q in seqs])[:600],
+                       rle(sched.choices)[:20]))
 
     def finish(self):
         pass
